@@ -1,10 +1,22 @@
 #!/bin/sh
-# tools/try_seed.sh CXX <dir with patch.diff demo.py meta.json> [name]: apply the seeded change to /repo, run demo + quick check, undo
-P=$1; D=$2; N=${3:-$P}
+# tools/try_seed.sh CXX <dir with patch.diff demo.py meta.json> [--inplace]
+# Apply the seeded change to a scratch worktree of /repo (default; /repo itself stays untouched so that other runs are not
+# disturbed) or, with --inplace, to /repo itself exactly as the acceptance protocol does (git -C /repo apply; undo with checkout),
+# then run the demo and the quick check.
+P=$1; D=$(cd "$2" && pwd); MODE=$3
 cd /verif || exit 2
-[ -z "$(git -C /repo status --short)" ] || { echo "/repo not clean"; exit 2; }
-echo "--- demo on unchanged tree"; PYTHONPATH=/repo/src timeout 300 /venv/bin/python $D/demo.py 2>&1 | tail -1
-git -C /repo apply $D/patch.diff || { echo "PATCH DOES NOT APPLY"; exit 3; }
-echo "--- demo on changed tree"; PYTHONPATH=/repo/src timeout 300 /venv/bin/python $D/demo.py 2>&1 | tail -2
-echo "--- check"; timeout 1500 ./check $P --tier quick 2>&1 | grep -E "VIOLATION|monitor failures|done rc|INFRA|TIMEOUT" | cut -c1-500
-git -C /repo checkout -- . ; git -C /repo status --short | head -3
+if [ "$MODE" = "--inplace" ]; then
+  [ -z "$(git -C /repo status --short)" ] || { echo "/repo not clean"; exit 2; }
+  R=/repo
+  echo "--- demo on unchanged tree"; PYTHONPATH=/repo/src timeout 300 /venv/bin/python $D/demo.py 2>&1 | tail -1
+  git -C /repo apply $D/patch.diff || { echo "PATCH DOES NOT APPLY"; exit 3; }
+else
+  R=/dev/shm/seedtry-$$
+  git -C /repo worktree add --detach $R HEAD -q || exit 2
+  echo "--- demo on unchanged tree"; PYTHONPATH=/repo/src timeout 300 /venv/bin/python $D/demo.py 2>&1 | tail -1
+  git -C $R apply $D/patch.diff || { echo "PATCH DOES NOT APPLY"; git -C /repo worktree remove --force $R; exit 3; }
+fi
+echo "--- demo on changed tree"; PYTHONPATH=$R/src timeout 300 /venv/bin/python $D/demo.py 2>&1 | tail -2
+echo "--- check"; PHARMPY_REPO=$R VERIF_NO_EVIDENCE=1 timeout 1500 ./check $P --tier quick 2>&1 | grep -E "VIOLATION|monitor failures|done rc|INFRA|TIMEOUT" | cut -c1-500
+if [ "$MODE" = "--inplace" ]; then git -C /repo checkout -- . ; git -C /repo status --short | head -3
+else git -C /repo worktree remove --force $R; fi
